@@ -18,8 +18,8 @@ P = {
    note="Whole-traversal order dependence, entry-point maps and parallel initialisation are outside."),
  "C07": dict(section="3 C07", text="Decides the termination arguments: lasso detection on the call-stack tree (all label sequences <=4, thorough 5), context-size limit for every int limit, recursion cut, termination and shape of GetAllCallingContexts on every call structure over 2 (thorough 3) functions, termination of defers.AnalyzeFunction (C16) and absence of Go panics on every explored path of every harness.",
    note="Whole-program termination, explicit panic sites in the visitors, the pointer solver and escape transfer functions are outside."),
- "C08": dict(section="3 C08", text="Decides flat-state indexing (uint32 iID*NumValues+vID, full width, cvc5 integer encoding), the join of abstract values, and the whole real NewSummaryGraph+RunIntraProcedural on symbolic value-typed functions (1 instruction x <=3 results quick; 2 chained instructions thorough): every def-use chain from a parameter to a result has an edge.",
-   note="Claim holds under NumValues*NumInstructions < 2^32; generated functions use 10 value-typed instruction kinds; Field/FieldAddr/Store/MapUpdate/Send, pointer aliasing, closures, globals and defers simulation are outside."),
+ "C08": dict(section="3 C08", text="Decides flat-state indexing (uint32 iID*NumValues+vID, full width, cvc5 integer encoding), the join of abstract values, and the whole real NewSummaryGraph+RunIntraProcedural on hand-built functions with symbolic instruction kinds and operand wiring: straight-line code over 12 value-typed kinds (incl. tuple extraction, string/array-typed index operands) with 1..3 results, a diamond with a phi, a single-block loop with a loop-carried phi, a static call (parameter-to-argument edges, call-to-return edges with tuple index), a local memory cell, struct fields, slice elements and handled builtins: every def-use chain from a parameter or call result to a result / call argument has an edge.",
+   note="Claim holds under NumValues*NumInstructions < 2^32; the pointer analysis result is empty in the harness, so alias propagation, referrer-driven propagation, closures, globals and the defers simulation are outside."),
  "C09": dict(section="3 C09", text="Decides the loader lemma for symbolic positions (-2..8) against every arity <=4 params (thorough 6) x <=3 results: a by-position edge of a predefined summary is accepted exactly when both positions exist, is mirrored, and a rejected one leaves the graph unchanged; and checks every entry of the built-in table (extracted from /repo's current source and resolved against the real signatures of this Go installation on every run) through the real loader: a flow listed from an existing argument to an existing class of targets is never dropped.",
    note="Whether the listed flows cover a function's real behaviour needs symbolic execution of standard-library bodies and is outside; table keys that do not resolve in this Go version are counted and skipped; the table part is finite concrete data, the solver's role there is path uniformity with the lemma."),
  "C10": dict(section="3 C10", text="Decides that PopulateGraphFromSummary applies a symbolic argument-to-result / argument-to-argument matrix exactly as written (edge iff listed, mirrored in/out, flags, nothing else), that LoadExternalContractSummary gives an interface-method contract precedence over a function contract, and end to end (shared with C01) that the forward taint Visitor propagates through a specified function exactly when the specification lists the result for the tainted argument - no transitive closure over argument-to-argument entries.",
